@@ -109,10 +109,23 @@ class Unfoldable(Exception):
     pass
 
 
+class BuiltinRef(object):
+    """A module-level alias of a Python builtin (e.g. long_type = int)."""
+    def __init__(self, name):
+        self.name = name
+
+    def __repr__(self):
+        return '<BuiltinRef %s>' % self.name
+
+
+BUILTIN_NAMES = ('int', 'str', 'bytes', 'float', 'bool', 'list', 'tuple',
+                 'dict', 'set', 'frozenset', 'object', 'len', 'sorted')
+
+
 class RepoModule(object):
-    def __init__(self, relpath):
+    def __init__(self, relpath, abspath=None):
         self.relpath = relpath
-        self.path = os.path.join(REPO, relpath)
+        self.path = abspath or os.path.join(REPO, relpath)
         with open(self.path, encoding='utf-8') as f:
             self.source = f.read()
         self.tree = ast.parse(self.source, filename=self.path)
@@ -165,7 +178,12 @@ class RepoModule(object):
         if isinstance(e, ast.Name):
             if e.id in ('True', 'False', 'None'):
                 return {'True': True, 'False': False, 'None': None}[e.id]
-            v = self.resolve(e.id)
+            try:
+                v = self.resolve(e.id)
+            except KeyError:
+                if e.id in BUILTIN_NAMES:
+                    return BuiltinRef(e.id)
+                raise Unfoldable(e.id)
             if isinstance(v, (RepoFunction, RepoClass, ModuleRef)):
                 raise Unfoldable(e.id)
             return v
@@ -220,11 +238,18 @@ class RepoModule(object):
             return r
         if isinstance(e, ast.Call) and isinstance(e.func, ast.Name):
             if e.func.id in ('tuple', 'list', 'set', 'frozenset', 'len',
-                             'sorted', 'dict', 'str', 'int'):
+                             'sorted', 'dict', 'str', 'int', 'OrderedDict'):
+                from collections import OrderedDict
                 args = [self.fold(a) for a in e.args]
                 return {'tuple': tuple, 'list': list, 'set': set,
                         'frozenset': frozenset, 'len': len, 'sorted': sorted,
-                        'dict': dict, 'str': str, 'int': int}[e.func.id](*args)
+                        'dict': dict, 'str': str, 'int': int,
+                        'OrderedDict': OrderedDict}[e.func.id](*args)
+        if (isinstance(e, ast.Call) and isinstance(e.func, ast.Attribute)
+                and e.func.attr in ('keys', 'values', 'items') and not e.args):
+            d = self.fold(e.func.value)
+            if isinstance(d, dict):
+                return list(getattr(d, e.func.attr)())
         raise Unfoldable(ast.dump(e)[:80])
 
     def resolve(self, name):
@@ -268,10 +293,10 @@ class RepoModule(object):
         return self.functions[qualname]
 
 
-def load_module(relpath):
+def load_module(relpath, abspath=None):
     key = (REPO, relpath)
     if key not in _cache:
-        _cache[key] = RepoModule(relpath)
+        _cache[key] = RepoModule(relpath, abspath)
     return _cache[key]
 
 
